@@ -9,6 +9,7 @@ use crate::refmodel::civil::*;
 use crate::refmodel::lunar::*;
 use crate::refmodel::pillar::*;
 use crate::refmodel::terms::*;
+use tyme4rs::tyme::Tyme as _;
 use tyme4rs::tyme::lunar::{LunarDay, LunarMonth, LunarYear};
 use tyme4rs::tyme::sixtycycle::SixtyCycleMonth;
 use tyme4rs::tyme::solar::{SolarMonth, SolarYear};
@@ -274,10 +275,32 @@ fn check_sixty_month(ctx: &Ctx, civ: &Civil, tm: &Terms, y: isize, k: usize, loc
     Ok(ds) => {
       let want: Vec<Ymd> = (a as usize..b as usize).map(|o| civ.date(o)).collect();
       if ds != want {
-        ctx.violation("sixty_month_days", key, format!("get_days() lists {} days {:?}..{:?}; model {} days {}..{} (Jie day to the day before the next Jie)", ds.len(), ds.first().map(|d| fmt_ymd(*d)), ds.last().map(|d| fmt_ymd(*d)), want.len(), fmt_ymd(want[0]), fmt_ymd(*want.last().unwrap())), rp);
+        ctx.violation("sixty_month_days", key.clone(), format!("get_days() lists {} days {:?}..{:?}; model {} days {}..{} (Jie day to the day before the next Jie)", ds.len(), ds.first().map(|d| fmt_ymd(*d)), ds.last().map(|d| fmt_ymd(*d)), want.len(), fmt_ymd(want[0]), fmt_ymd(*want.last().unwrap())), rp.clone());
       }
     }
-    Err(m) => ctx.violation("sixty_month_days", key, format!("panics: {}", m), rp),
+    Err(m) => ctx.violation("sixty_month_days", key.clone(), format!("panics: {}", m), rp.clone()),
+  }
+  // the same container reached by navigation: the month stepped to from (y, k) by +1 / -1 / +12 lists the model's days
+  for n in [1isize, -1, 12] {
+    let g2 = gj as isize + 2 * n;
+    if g2 < 3 || (g2 + 2) as usize >= tm.t.len() {
+      continue;
+    }
+    let (a2, b2) = (tm.t[g2 as usize].day, tm.t[g2 as usize + 2].day);
+    if a2 == u32::MAX || b2 == u32::MAX {
+      continue;
+    }
+    loc.transitions += 1;
+    let r = guard(|| {
+      let ds = SixtyCycleMonth::from_index(y, k as isize).next(n).get_days();
+      (ds.len(), ds.first().map(|d| ymd_of(&d.get_solar_day())), ds.last().map(|d| ymd_of(&d.get_solar_day())))
+    });
+    let want = ((b2 - a2) as usize, Some(civ.date(a2 as usize)), Some(civ.date(b2 as usize - 1)));
+    match r {
+      Ok(g) if g == want => loc.oc("stepped_sixty_month_days_ok"),
+      Ok(g) => ctx.violation("sixty_month_days", format!("{} next({})", key, n), format!("from_index({}, {}).next({}).get_days(): (count, first, last) = {:?}; model {:?}", y, k, n, g, want), rp.clone()),
+      Err(m) => ctx.violation("sixty_month_days", format!("{} next({})", key, n), format!("panics: {}", m), rp.clone()),
+    }
   }
 }
 
